@@ -112,3 +112,43 @@ prop("C14", [
 ], ["acceptance is never demanded; whitespace at the ends of field/value/list items may be trimmed; empty list items may be dropped; a bare trailing '--' is tolerated",
     "'longest operator at that position' resolves the textual ambiguity of values that start with '='"],
    nontrivial_classes=["accepted", "rejected", "accepted-with-special-value", "junk-line-rejected"])
+
+CLIENT = "props/client"
+
+prop("C08", [
+    S(CLIENT, "^TestC08Regress$", kind="plain"),
+    S(CLIENT, "^TestC08$", q=3000, t=20000, shards=16),
+], ["the simulated kernel never hands out request sequence 0 (the kernel uses 0 for unsolicited events)",
+    "'identifies the errno' = errors.Is(err, errno), plus AddRule's documented 'rule exists' text for EEXIST",
+    "at most 9 transient receive failures in a row (the property's bound); EAGAIN is rationed because the client sleeps 50 ms on it"],
+   nontrivial_classes=["op-with-errno", "op-with-foreign-reply", "op-with-interleaved-events", "op-with-transient-failures"] +
+                      ["op-" + o for o in ["GetStatus", "GetRules", "AddRule", "DeleteRule", "DeleteRules", "SetPID", "SetRateLimit", "SetBacklogLimit",
+                                            "SetEnabled", "SetImmutable", "SetFailure", "SetBacklogWaitTime"]])
+
+prop("C16", [
+    S(CLIENT, "^TestC16Regress$", kind="plain"),
+    S(CLIENT, "^TestC16Constants$", kind="plain"),
+    S(CLIENT, "^TestC16$", q=20000, t=500000, shards=16),
+], ["struct audit_status field offsets are written from the kernel header by hand; mask/feature bits and message types come from the header snapshot",
+    "fields only partly covered by an odd-length buffer are not asserted"],
+   nontrivial_classes=["set-nonzero", "get", "wire-too-short", "wire-decoded"] + ["set-" + s for s in
+                       ["SetPID", "SetRateLimit", "SetBacklogLimit", "SetEnabled", "SetImmutable", "SetFailure", "SetBacklogWaitTime"]])
+
+prop("C17", [
+    S(CLIENT, "^TestC17Regress$", kind="plain"),
+    S(CLIENT, "^TestC17$", q=5000, t=30000, shards=16),
+    S(CLIENT, "^TestC17ConcurrentClose$", kind="plain", race=True, q=2000, t=100000),
+], ["a synchronous request is never issued while ACKs are pending (the property does not say what happens)",
+    "the return value of Close calls after the first is not asserted"],
+   nontrivial_classes=["history-with-error-among-acks", "history-with-2-nowait-and-2-waits", "history-with-repeated-close",
+                       "history-close-after-setpid", "history-with-getrules-then-traffic", "concurrent-close"])
+
+prop("C18", [
+    S(CLIENT, "^TestC18Regress$", kind="plain"),
+    S(CLIENT, "^TestC18Lengths$", kind="plain"),
+    S(CLIENT, "^TestC18$", q=5000, t=100000, shards=4),
+    S(CLIENT, "^TestC18Concurrent$", kind="plain", race=True, q=200, t=5000),
+], ["needs AF_NETLINK sockets (the check is undecided without them)",
+    "only side-effect-free requests: NETLINK_ROUTE message types above RTM_MAX with the REQUEST flag, which the kernel refuses with EOPNOTSUPP and echoes",
+    "a zero-length datagram cannot be sent between netlink sockets (ENODATA); it is covered at parser level only"],
+   nontrivial_classes=["send-echoed", "foreign-header-sized-refused", "foreign-short-refused", "parser-short", "parser-ok", "concurrent-batch"])
